@@ -406,7 +406,7 @@ def judge_theorem_domain(case, rec, rd, special):
     2 flash refusal) and, when it returns captions, they satisfy ok_reread.  Executed here against BOTH sides: the class
     the extracted composition reports, and the real SCCReader on the real SCCWriter's output (which must return
     captions: a refusal of an in-domain set is reported, with the model's class, as a broken correspondence)."""
-    if not rec["thm_domain"]:
+    if not rec["thm_domain"] or not case["caps"]:       # (the class theorem is about non-empty lists)
         return None
     inp = plain(case)
     if rec["model_class"] not in (0, 1, 2):
